@@ -33,4 +33,29 @@ impl WeightPrefix {
         }
     { unimplemented!() }
 }
+/// `cw_utils::calc_range_start_string(start_after).map(Bound::ExclusiveRaw)` (R18b): exclusive start key of a listing page
+pub struct StartKey { pub k: Ghost<Seq<char>> }
+#[verifier::external_body]
+pub fn range_start_(start_after: Option<Str>) -> (r: Option<StartKey>)
+    ensures r is Some == start_after is Some, start_after is Some ==> r->Some_0.k@ == start_after->Some_0@
+{ unimplemented!() }
+/// `FARMS.idx.lp_denom.prefix(lp)` (R18c)
+pub struct FarmLpPrefix { pub lp: Ghost<Seq<char>> }
+#[verifier::external_body]
+pub fn farms_lp_prefix_(lp: Str) -> (r: FarmLpPrefix) ensures r.lp@ == lp@ { unimplemented!() }
+impl FarmLpPrefix {
+    /// `.range(storage, start, None, Order::Ascending).take(n).map(|item| Ok(value)).collect()` (R18): the first n farms of the
+    /// LP denom after the start key, in identifier order; stored values always deserialize
+    #[verifier::external_body]
+    pub fn range_take_(&self, s: &Storage, start: Option<StartKey>, n: usize) -> (r: Result<Vec<Farm>, StdError>)
+        ensures match r {
+            Ok(v) => v@.len() <= n
+                && (forall|i: int| 0 <= i < v@.len() ==> is_farm_of(*s, self.lp@, (#[trigger] v@[i]).identifier@) && s.farms@[v@[i].identifier@] == v@[i])
+                && (forall|i: int, j: int| 0 <= i < j < v@.len() ==> (#[trigger] v@[i]).identifier@ != (#[trigger] v@[j]).identifier@)
+                && (start is None && v@.len() < n ==>
+                    forall|id: Seq<char>| is_farm_of(*s, self.lp@, id) ==> exists|i: int| 0 <= i < v@.len() && (#[trigger] v@[i]).identifier@ == id),
+            Err(_) => false,
+        }
+    { unimplemented!() }
+}
 } // verus!
